@@ -102,7 +102,9 @@ def install():
 # C06/C08/C17 do not examine the digest mechanism; they may replace the two
 # external executables by an in-process equivalent that prints the same text
 # (C07 always runs the real executables).
-_REAL_CHECK_OUTPUT = dawgie.db.util.subprocess.check_output
+# (a tree that computes the digests without the external programs has no `subprocess` in the module: nothing to replace)
+_HAS_SUBPROCESS = hasattr(dawgie.db.util, 'subprocess')
+_REAL_CHECK_OUTPUT = dawgie.db.util.subprocess.check_output if _HAS_SUBPROCESS else None
 
 
 def _fast_check_output(cmd, *args, **kwds):
@@ -132,6 +134,8 @@ class _SubprocessProxy:
 def fast_digest(on=True):
     import subprocess
 
+    if not _HAS_SUBPROCESS:
+        return
     dawgie.db.util.subprocess = _SubprocessProxy(subprocess) if on else subprocess
 
 
